@@ -82,13 +82,15 @@ def _points(doc):
     r.execute(None, {}, DATA)
     from vf.ref.model import tstr
     return ([c[0] for c in r.calls], [MODELS[0]["types"][named(MODELS[0]["types"][c[1]]["fields"][c[2]]["type"])]["kind"] for c in r.calls],
-            ["[" in tstr(MODELS[0]["types"][c[1]]["fields"][c[2]]["type"]) for c in r.calls])
+            ["[" in tstr(MODELS[0]["types"][c[1]]["fields"][c[2]]["type"]) for c in r.calls],
+            [named(MODELS[0]["types"][c[1]]["fields"][c[2]]["type"]) for c in r.calls])
 
 
 _P = {d: _points(d) for d in DOCS}
 POINTS = {d: _P[d][0] for d in DOCS}
 POINT_KIND = {d: _P[d][1] for d in DOCS}      # kind of the named type at each fault point
 POINT_LIST = {d: _P[d][2] for d in DOCS}      # is the field list-typed
+POINT_NAME = {d: _P[d][3] for d in DOCS}      # named type of the field
 
 
 def meaningless(doc, k, kind):
@@ -163,6 +165,8 @@ def c02_single(k: int, kind: int, payload: int) -> bool:
     kind = pick(kind, NK)
     if meaningless(doc, k, kind):
         return True
+    if kind == 7 and POINT_NAME[doc][k] in ("String", "ID"):
+        payload = 2 ** 31 if payload > 0 else -5      # str(<symbolic int>) is CPython's int rendering: two concrete representatives
     eng = (ENGS_SEQ if sh["seq"] else ENGS)[bits]
     resp = run_case(eng, MODELS[bits], doc, {pts[k]: apply_fault(kind, payload)})
     if resp is False:
